@@ -13,6 +13,7 @@ def db_oracle(db):
     import hashlib
     h = hashlib.sha256(text.encode()).hexdigest()[:12]
     p = os.path.join(runner.BUILD, 'oracle-%s-%s.txt' % (db, h))
+    os.makedirs(runner.BUILD, exist_ok=True)
     if not os.path.exists(p):
         zicrun.write_tables(tabs, zones, p)
     return p, zones, links, tabs, text
